@@ -3,6 +3,7 @@ package main
 import (
 	"encoding/json"
 	"fmt"
+	"sort"
 
 	"github.com/onflow/atree"
 	testutils "github.com/onflow/atree/test_utils"
@@ -103,6 +104,8 @@ type RunStats struct {
 	MaxDepth  int            `json:"max_depth"`
 	MaxSlabs  int            `json:"max_slabs"`
 	MaxCount  int            `json:"max_count"`
+	MaxFanout int            `json:"max_root_children"` // most children seen in a root index slab
+	FullRoots int            `json:"records_with_full_root_index_slab"`
 	Events    map[string]int `json:"events"`
 	Rejected  map[string]int `json:"rejected"`
 	ElemClass map[string]int `json:"elem_classes"`
@@ -132,6 +135,19 @@ func (w *World) rec(t int, ev string, op Op, res Res) Rec {
 		}
 		if r.N > runStats.MaxCount {
 			runStats.MaxCount = r.N
+		}
+		if f := len(r.F[0].C); f > 0 {
+			if f > runStats.MaxFanout {
+				runStats.MaxFanout = f
+			}
+			// an index slab that cannot take one more child header without exceeding the maximum
+			per := 14
+			if r.Kind == "M" {
+				per = 18
+			}
+			if r.F[0].Sz+per > int(w.Th.Max) {
+				runStats.FullRoots++
+			}
 		}
 	}
 	if len(st.Reach) > runStats.MaxSlabs {
@@ -176,6 +192,44 @@ func (w *World) rec(t int, ev string, op Op, res Res) Rec {
 		r.Cold, r.Known = w.committedRoots, true
 	}
 	return r
+}
+
+// boundaryFlags names the size boundaries the container of handle name sits on right now.
+func (w *World) boundaryFlags(name string) ([]string, int) {
+	h, ok := w.H[name]
+	if !ok {
+		return []string{}, 0
+	}
+	p := w.newProjector()
+	root := p.nodeOfSlab(w.rootSlabOf(h))
+	per := 14
+	if h.Kind == "M" {
+		per = 18
+	}
+	seen := map[string]bool{}
+	var walk func(n *Node, isRoot bool)
+	walk = func(n *Node, isRoot bool) {
+		if len(n.C) == 0 {
+			return
+		}
+		if n.Sz+per > int(w.Th.Max) {
+			if isRoot {
+				seen["rootfull"] = true
+			} else {
+				seen["midfull"] = true
+			}
+		}
+		for _, c := range n.C {
+			walk(c, false)
+		}
+	}
+	walk(root, true)
+	out := []string{}
+	for k := range seen {
+		out = append(out, k)
+	}
+	sort.Strings(out)
+	return out, len(root.C)
 }
 
 func resOf(err error) Res {
